@@ -46,7 +46,7 @@ class LongSession(Part):
     magnitude (1 octet, 2 octets, sign-bit boundaries 127/128, 255/256, 32767/32768) and correlation by id still works."""
 
     name = "long-session"
-    examples = {QUICK: 40, THOROUGH: 600}
+    examples = {QUICK: 40, THOROUGH: 80}
 
     def strategy(self, tier: str) -> t.Any:
         n = st.sampled_from([130, 200, 260, 300] if tier == QUICK else [130, 260, 300, 1000, 33000])
